@@ -558,8 +558,9 @@ def check_main(pid, tier, seed, nworkers=None):
 def determinism_selftest(pid, seed, runs=200):
     """Each of the first `runs` run indices is executed twice, in different interpreters with
     different PYTHONHASHSEED and different worker counts; digests must match pairwise."""
-    a, ea = spawn_workers(pid, seed, "quick", runs, 600, 16, digests=True, hashseed_base=1)
-    b, eb = spawn_workers(pid, seed, "quick", runs, 600, 3, digests=True, hashseed_base=2)
+    tier = os.environ.get("VERIF_TIER") or "quick"
+    a, ea = spawn_workers(pid, seed, tier, runs, 600, 16, digests=True, hashseed_base=1)
+    b, eb = spawn_workers(pid, seed, tier, runs, 600, 3, digests=True, hashseed_base=2)
     ma, mb = merge(a), merge(b)
     bad = [k for k in ma["digests"] if ma["digests"][k] != mb["digests"].get(k)]
     print("determinism property=%s runs=%d mismatches=%d errors=%d" % (pid, len(ma["digests"]), len(bad),
